@@ -258,8 +258,12 @@ func (w *Worktree) Checkout(opts *CheckoutOptions) error {
 		}
 	}
 
+	// Everything that can make the checkout fail for what it was asked to do
+	// (the new branch's name, the commit to check out, the sparse-checkout
+	// directories) is looked at before the branch is created and HEAD is
+	// moved: a refused checkout leaves both alone.
 	if opts.Create {
-		if err := w.createBranch(opts); err != nil {
+		if err := w.validateNewBranch(opts); err != nil {
 			return err
 		}
 	}
@@ -267,6 +271,16 @@ func (w *Worktree) Checkout(opts *CheckoutOptions) error {
 	c, err := w.getCommitFromCheckoutOptions(opts)
 	if err != nil {
 		return err
+	}
+
+	if len(opts.SparseCheckoutDirectories) > 0 && mode != SoftReset {
+		t, err := w.r.getTreeFromCommitHash(c)
+		if err != nil {
+			return err
+		}
+		if !treeContainsDirs(t, opts.SparseCheckoutDirectories) {
+			return ErrSparseResetDirectoryNotFound
+		}
 	}
 
 	ro := &ResetOptions{
@@ -285,6 +299,14 @@ func (w *Worktree) Checkout(opts *CheckoutOptions) error {
 		}
 	}
 
+	if opts.Create {
+		if err := w.r.Storer.SetReference(
+			plumbing.NewHashReference(opts.Branch, opts.Hash),
+		); err != nil {
+			return err
+		}
+	}
+
 	if !opts.Hash.IsZero() && !opts.Create {
 		err = w.setHEADToCommit(opts.Hash)
 	} else {
@@ -298,7 +320,10 @@ func (w *Worktree) Checkout(opts *CheckoutOptions) error {
 	return w.Reset(ro)
 }
 
-func (w *Worktree) createBranch(opts *CheckoutOptions) error {
+// validateNewBranch checks that the branch Checkout is asked to create can be
+// created, and settles the commit it starts at (HEAD when none was given).
+// It changes nothing in the repository.
+func (w *Worktree) validateNewBranch(opts *CheckoutOptions) error {
 	if err := opts.Branch.Validate(); err != nil {
 		return err
 	}
@@ -321,9 +346,7 @@ func (w *Worktree) createBranch(opts *CheckoutOptions) error {
 		opts.Hash = ref.Hash()
 	}
 
-	return w.r.Storer.SetReference(
-		plumbing.NewHashReference(opts.Branch, opts.Hash),
-	)
+	return nil
 }
 
 func (w *Worktree) getCommitFromCheckoutOptions(opts *CheckoutOptions) (plumbing.Hash, error) {
